@@ -1,6 +1,7 @@
 import JediModel.Gen.C15
 import JediModel.Lemmas.Recursion
 import JediModel.Lemmas.Mro
+import JediModel.Model.StarImports
 /-! # C15 — Inference gives up instead of recursing or exploding
 
 Property theorems only. The four limits are arbitrary naturals in the general statements (so a
@@ -168,6 +169,96 @@ theorem memo_no_default_diverges (fuel : Nat) (m : Memo Nat) (hm : m 0 = none) :
   induction fuel with
   | zero => unfold eval; simp [hm]
   | succ fuel ih => unfold eval; simp [hm, evalArgs, ih, storeDefault, finishEval]
+
+/-! ## star imports: `ModuleMixin.star_imports` -/
+
+section StarImports
+open JediModel.StarImports
+
+/-- the shapes found in jedi/inference/value/module.py -/
+def srcStarCfg : Cfg := { «default» := Gen.C15.starDefault, skipSelf := Gen.C15.starSkipSelf }
+
+/-- `star_imports` consists of exactly the statements `Model.StarImports.body` transcribes, under
+the memoiser with the re-entry default `[]` -/
+theorem star_imports_transcribed :
+    Gen.C15.starDecorators = ["inference_state_method_cache([])"] ∧
+    Gen.C15.starSteps = ["modules = []", "module_context = self.as_context()",
+      "for i in self.tree_node.iter_imports()", "if i.is_star_import()",
+      "new = Importer(self.inference_state, import_path=i.get_paths()[-1], module_context=module_context, level=i.level).follow()",
+      "for module in new", "if isinstance(module, ModuleValue)", "modules += module.star_imports()",
+      "end", "end", "modules += new", "end", "end", "return modules"] := ⟨rfl, rfl⟩
+
+theorem star_closed (cfg : Cfg) (imports : Nat → List Nat) (n : Nat)
+    (hc : ∀ v, v < n → ∀ c ∈ imports v, c < n) : Closed (graph cfg imports) n := by
+  intro v hv c hcm
+  simp only [graph, List.mem_filter] at hcm
+  exact hc v hv c hcm.1
+
+/-- `star_imports_terminates`: for ANY star-import relation on `n` modules (self imports, cycles of
+any length, several cycles), whatever the test in front of the recursive call, as long as the
+memoiser stores a default before the body runs: `module.star_imports()` returns with Python nesting
+≤ `n`, enters at most `n` bodies and makes at most `1 + |star imports|` calls. -/
+theorem star_imports_terminates (cfg : Cfg) (dflt : List Nat) (hd : cfg.default = some dflt)
+    (imports : Nat → List Nat) (n : Nat) (hc : ∀ v, v < n → ∀ c ∈ imports v, c < n) (v : Nat) (hv : v < n) :
+    ∃ m' r w, starEval cfg imports n Memo.empty v = .ok (m', r, w) ∧
+      w.bodies ≤ n ∧ w.calls ≤ 1 + edges imports n := by
+  obtain ⟨m', r, w, h, hb, hcalls, _⟩ :=
+    memo_eval_terminates_linear (graph cfg imports) n dflt hd (star_closed cfg imports n hc) v hv
+  refine ⟨m', r, w, h, hb, Nat.le_trans hcalls ?_⟩
+  have : ∀ k, edges (graph cfg imports).deps k ≤ edges imports k := by
+    intro k
+    induction k with
+    | zero => exact Nat.le_refl _
+    | succ k ih =>
+      have h1 : edges (graph cfg imports).deps (k + 1)
+          = edges (graph cfg imports).deps k + ((imports k).filter (recurses cfg k)).length := rfl
+      have h2 : edges imports (k + 1) = edges imports k + (imports k).length := rfl
+      have := List.length_filter_le (recurses cfg k) (imports k)
+      omega
+  have := this n
+  omega
+
+/-- the source instance: the shapes read from module.py -/
+theorem star_imports_terminates_src (imports : Nat → List Nat) (n : Nat)
+    (hc : ∀ v, v < n → ∀ c ∈ imports v, c < n) (v : Nat) (hv : v < n) :
+    ∃ m' r w, starEval srcStarCfg imports n Memo.empty v = .ok (m', r, w) ∧
+      w.bodies ≤ n ∧ w.calls ≤ 1 + edges imports n :=
+  star_imports_terminates srcStarCfg [] (by decide) imports n hc v hv
+
+example : (match starEval srcStarCfg (ringImports 3) 3 Memo.empty 0 with
+    | .ok (_, r, w) => some (r, w) | _ => none) = some ([0, 2, 1], ⟨3, 4⟩) := by decide
+
+/-- the seeded shape: no stored default, the test only excludes the module itself; two modules
+that star-import each other -/
+def mutualNoDefault : Graph (List Nat) := graph { «default» := none, skipSelf := true } (ringImports 2)
+
+/-- FULL (any memoiser argument) is false: without a stored default a test that only excludes the
+module itself does not stop a cycle through two modules - every amount of stack is exhausted -/
+theorem star_imports_no_default_diverges (fuel : Nat) (m : Memo (List Nat))
+    (hm : ∀ k, k < 2 → m k = none) (v : Nat) (hv : v < 2) :
+    eval mutualNoDefault fuel m v = .error .fuel := by
+  have d0 : mutualNoDefault.deps 0 = [1] := rfl
+  have d1 : mutualNoDefault.deps 1 = [0] := rfl
+  have dn : mutualNoDefault.default = none := rfl
+  induction fuel generalizing v with
+  | zero => unfold eval; simp [hm v hv]
+  | succ fuel ih =>
+    have h0 := ih 0 (by decide)
+    have h1 := ih 1 (by decide)
+    have : v = 0 ∨ v = 1 := by omega
+    rcases this with h | h <;> subst h <;> unfold eval
+    · simp [hm, d0, storeDefault, dn, evalArgs, h1, finishEval]
+    · simp [hm, d1, storeDefault, dn, evalArgs, h0, finishEval]
+
+/-- and termination is all the memoiser gives: the listing itself is not de-duplicated, on `k`
+nested diamonds of star imports it has `2^(k+2) - 4` entries for `3k+1` modules
+(kernel-checked for k = 1..4; see known finding C15-star-import-diamonds-exponential) -/
+theorem star_imports_exponential_witness :
+    (List.range 4).map (fun k =>
+      match starEval srcStarCfg diamondImports (3 * (k + 1) + 1) Memo.empty (3 * (k + 1)) with
+      | .ok (_, r, _) => r.length | _ => 0) = [4, 12, 28, 60] := by decide
+
+end StarImports
 
 /-! ## the on-stack guard alone -/
 
